@@ -67,6 +67,14 @@ func replay(path string, res *vlib.Result) {
 				break
 			}
 		}
+	case "merged_err", "indexed_err", "dbiter_err":
+		var c errCase
+		if err := json.Unmarshal(rf.Case, &c); err != nil {
+			fmt.Fprintln(os.Stderr, "replay:", err)
+			os.Exit(2)
+		}
+		runErrCase(&c, res, "replay")
+		res.Eval("replay", false)
 	default:
 		var c compCase
 		if err := json.Unmarshal(rf.Case, &c); err != nil {
@@ -89,16 +97,19 @@ func main() {
 
 	// budgets
 	nComp, nDBSmall, nDB := 10000, 320, 120
+	nErr, kErr := 8000, 320 // error / release walks on component iterators behind fuses
 	kComp, kDB := 400, 240
 	kBytes, kBytesMax := 16, 6000 // byte-level (K) states per run (one per worker), max bytes of a state
 	maxMoves := 200
 	if a.Thorough() {
 		nComp, nDBSmall, nDB = 400000, 6000, 3000
+		nErr, kErr = 300000, 2400
 		kComp, kDB = 3000, 1500
 		kBytes = 48
 	}
 	if a.Extra == "search" {
 		nComp, nDBSmall, nDB = 400000, 6000, 3000
+		nErr, kErr = 300000, 0
 		kComp, kDB = 0, 0
 		kBytes = 0
 	}
@@ -119,7 +130,7 @@ func main() {
 	const W = 16
 	master := vlib.NewRNG(a.Seed)
 	type wout struct {
-		kcomp, kdb, kbytes []string
+		kcomp, kdb, kbytes, kerr []string
 	}
 	outs := make([]wout, W)
 	rngs := make([]*vlib.RNG, W)
@@ -135,7 +146,7 @@ func main() {
 			o := &outs[w]
 			// component level
 			for i := w; i < nComp; i += W {
-				if res.NViolations() >= 20 {
+				if stopNow(res) {
 					return
 				}
 				kfriendly := len(o.kcomp) < (kComp+W-1)/W
@@ -154,9 +165,27 @@ func main() {
 					o.kcomp = append(o.kcomp, kc)
 				}
 			}
+			// errors and release: component iterators behind fuses
+			for i := w; i < nErr; i += W {
+				if stopNow(res) {
+					return
+				}
+				kfriendly := len(o.kerr) < (kErr+W-1)/W
+				mm, mk := 120, 60
+				if kfriendly {
+					mm, mk = kMaxMoves, kMaxKeys
+				}
+				c := genErrCase(r, mm, mk)
+				label := fmt.Sprintf("err/%d", i)
+				kc, failed := runErrCase(c, res, label)
+				res.Eval(label, !failed)
+				if !failed && kfriendly && kc != "" {
+					o.kerr = append(o.kerr, kc)
+				}
+			}
 			// DB level: small programs (also feed (K)), then larger ones
 			for i := w; i < nDBSmall+nDB; i += W {
-				if res.NViolations() >= 20 {
+				if stopNow(res) {
 					return
 				}
 				small := i < nDBSmall
@@ -208,6 +237,9 @@ func main() {
 	}
 	for w := 0; w < W; w++ {
 		cases = append(cases, outs[w].kdb...)
+	}
+	for w := 0; w < W; w++ {
+		cases = append(cases, outs[w].kerr...)
 	}
 	// byte-level cases: spread one per shard (they are the expensive ones)
 	var bcs []string
